@@ -141,7 +141,7 @@ def check_get_metric(rec, gname, order, ai, ri, seed, g=None, reg=None):
             err = None
         except Exception as e:
             got, err = None, e
-    warned = any("interpolated" in str(x.message) for x in w)
+    warned = any(not issubclass(x.category, (DeprecationWarning, FutureWarning, PendingDeprecationWarning)) for x in w)
     if kind == "any":
         return None
     if kind == "raise":
